@@ -140,8 +140,8 @@ type x06Run struct {
 	ureq     int
 	upConn   net.Conn
 	upRaw    net.Conn // the TCP connection under upConn
-	upClosed bool  // the upstream's read side has ended (the proxy closed the connection)
-	upExtra  int64 // bytes received after the request head
+	upClosed bool     // the upstream's read side has ended (the proxy closed the connection)
+	upExtra  int64    // bytes received after the request head
 	upReqHdr http.Header
 
 	// proxy side
@@ -1445,7 +1445,6 @@ func TestVerifX06Probe(t *testing.T) {
 	verifx.Emit(map[string]any{"kind": "probe", "partial_hdr_status": partial, "seen": fmt.Sprint(seen)})
 	verifx.Summary(map[string]any{"probed": 4})
 }
-
 
 // x06FDReport says what the open sockets of the process are (diagnostics for a descriptor shortage).
 func x06FDReport(w *x06World) string {
